@@ -10,6 +10,7 @@ def run(ctx):
     exe = vlib.build(ctx)
     cli = vlib.build_cli(ctx)
     vlib.tlc_mc(ctx, 'MC_CLI', 'MC_CLI', workers=4)
+    vlib.tlc_mc(ctx, 'MC_Summary', 'MC_Summary', workers=2)   # the summary table as a function of the result statuses
     rec, out = vlib.tlc_mc(ctx, 'MC_CLI', 'MC_CLI_export', workers=4)
     exp = ctx.path('export.out')
     open(exp, 'w').write(out)
